@@ -14,7 +14,7 @@ TIERS = {
     "quick": {"runs": 3000, "max_wall": 240, "minimise_s": 25, "chunk": 50},
     "thorough": {"runs": 100000, "max_wall": 3000, "minimise_s": 60, "chunk": 200},
 }
-FAULT_KINDS = ["save tick position relative to the last change", "clean stop/restart", "stop() at the instant a scheduled save starts (pre-emptive schedule)", "persistence directory not writable during one scheduled save"]
+FAULT_KINDS = ["save tick position relative to the last change", "clean stop/restart", "stop() at the instant a scheduled save starts (pre-emptive schedule)", "persistence directory not writable during one scheduled save", "transient I/O error in one scheduled save", "raising event callback", "no event callback", "line delivered while stop() is in progress"]
 REAL, STUBS, ASSUMPTIONS = netcheck.REAL, netcheck.STUBS, netcheck.ASSUMPTIONS
 REQUIRED_PROBES = ["restarts_with_persistence", "stop_after_unsaved_change", "saves_completed"]
 WEIGHTS = {"advance": 14, "restart": 3, "present_node": 8, "present_child": 9, "value": 12, "battery": 6, "sketch": 8, "heartbeat": 6,
@@ -34,13 +34,25 @@ def gen(rng, tier, index):
     if tail_rng < 0.5:
         ops.append(["advance", rng.choice([9.9, 10.0, 10.2, 20.1])])
     ops.extend(netgen.make_ops(rng, cfg["version"], 1, dict(WEIGHTS, advance=0, restart=0, garbage=0, invalid_frame=0), nodes=(1, 1))[-1:])
+    roll = rng.random()
+    if roll < 0.15:
+        cfg["cb_raise"] = sorted(rng.sample(range(80), 25))  # an application callback that raises now and then
+    elif roll < 0.3:
+        cfg["no_callback"] = True  # persistence on, no event callback: a documented combination
     if cfg["persistence"] and rng.random() < 0.2:
         ops.append(["readonly_tick"])
+    elif cfg["persistence"] and rng.random() < 0.2:
+        # one scheduled save hits a transient I/O error; nothing changes afterwards
+        ops.append(["fault_tick", rng.choice(["open", "write", "flush", "fsync", "close", "rename", "rename", "remove"]), rng.choice(["EIO", "EACCES", "ENOSPC"])])
     if rng.random() < 0.3:
         # stop() racing with a scheduled save that has something to write
         cfg["sched"] = {"policy": "rw", "seed": rng.getrandbits(32), "p": rng.choice([0.02, 0.08, 0.2])}
         cfg["max_steps"] = 1_500_000
         ops.append(["stop_at_tick"])
+    elif rng.random() < 0.25:
+        # the network delivers one more line at the moment the final save has been written
+        late = netgen.make_ops(rng, cfg["version"], 1, dict(WEIGHTS, advance=0, restart=0, garbage=0, invalid_frame=0, ctl_set=0, ctl_fw=0, adopt=0), nodes=(1, 1))[-1]
+        ops.append(["restart", {"late_line": late[1] if late[0] == "line" else "1;255;3;0;11;late"}])
     else:
         ops.append(["restart"])
     return {"cfg": cfg, "ops": ops}
